@@ -46,6 +46,13 @@ func runFixtures(f lib.Flags, res *lib.Result, drv *lib.Driver) {
 		verifiable                 bool
 	}
 	var cases []fx
+	type vfix struct {
+		desc string
+		net  *networks.Network
+		b    *lib.Bundle
+		skip bool
+	}
+	var verdictFixtures []vfix
 	maxTx := f.Scale(60, 1000)
 	for _, name := range names {
 		net := nets[name]
@@ -125,6 +132,9 @@ func runFixtures(f lib.Flags, res *lib.Result, drv *lib.Driver) {
 			}
 			ur := net.BlockHashMetaInfo.UnverifiableRange
 			verifiable := !(len(ur) == 2 && b.Number >= ur[0] && b.Number <= ur[1])
+			verdictFixtures = append(verdictFixtures, vfix{desc: name + "/" + base + " (" + format + ")", net: net, skip: !verifiable,
+				b: &lib.Bundle{Block: b, SU: &core.StateUpdate{BlockHash: b.Hash, NewRoot: b.GlobalStateRoot, OldRoot: &felt.Zero, StateDiff: sd},
+					Classes: map[felt.Felt]core.ClassDefinition{}}})
 			for _, o := range overrides {
 				impl, _ := realBlockHash(b, sd, net, o)
 				cases = append(cases, fx{desc: fmt.Sprintf("fixture %s/%s block (%s)", name, base, format), line: bhLine(net, o, b, sd),
@@ -132,13 +142,52 @@ func runFixtures(f lib.Flags, res *lib.Result, drv *lib.Driver) {
 			}
 		}
 	}
+	// verdict of SanityCheckNewHeight on the fixture as it is, on a node with its network's parameters
+	// (mainnet First07Block, the unverifiable ranges of Goerli / Integration): model vs real
+	for _, vf := range verdictFixtures {
+		ac := &acceptChecker{drv: drv, net: vf.net, cache: map[string]string{}}
+		bc, _ := lib.NewNode(vf.net, true)
+		var realErr error
+		_, panicked, _ := lib.Try(func() error {
+			_, realErr = bc.SanityCheckNewHeight(lib.DeepCopy(vf.b.Block).(*core.Block), lib.DeepCopy(vf.b.SU).(*core.StateUpdate), nil)
+			return nil
+		})
+		if panicked {
+			res.Hit("fixture-verdict-panic")
+			continue
+		}
+		model, err := ac.modelVerdict(vf.b, 0, nil)
+		if err != nil {
+			res.Fatalf("fixture verdict %s: %v", vf.desc, err)
+			continue
+		}
+		parts := strings.SplitN(model, " | ", 2)
+		failing := 0
+		if len(parts) == 2 {
+			for _, c := range strings.Split(parts[1], ",") {
+				if c != "" && c != "number" && c != "parent" {
+					failing++
+				}
+			}
+		}
+		res.Compared(1)
+		res.Case("fixture-verdict:"+vf.desc, true)
+		res.Hit("corr-fixture-verdict")
+		if vf.skip {
+			res.Hit("corr-fixture-verdict-unverifiable-range")
+		}
+		if (realErr == nil) != (failing == 0) {
+			res.Mismatch(lib.Mismatch{Sig: "fixture-verdict", Input: vf.desc, Model: model, Impl: fmt.Sprint(realErr)})
+		}
+	}
+
 	lines := make([]string, len(cases))
 	for i := range cases {
 		lines[i] = cases[i].line
 	}
 	outs, err := drv.AskAll(lines)
 	if err != nil {
-		res.Note("driver (fixtures): %v", err)
+		res.Fatalf("driver (fixtures): %v", err)
 		return
 	}
 	for i, c := range cases {
